@@ -179,7 +179,7 @@ def pop_readd_rule(F, R, rule):
     stocked = set(b.get('impl_adt') for b in F.bodies.values() if F.handwritten(b) and b['kind'] == 'AssocFn' and has_loop(b)
                   and '-> core::result::Result<' + (b.get('impl_adt') or '?') in b.get('sig', '') and 'add' in reached.get(b['id'], set()))
     stocked.discard(None)
-    P = RuleProxy(R, {'Q1': rule})
+    P = RuleProxy(R, {'Q1': rule, 'Q2': rule})
     for b in F.bodies.values():
         if not F.handwritten(b) or b['kind'] != 'AssocFn' or b.get('impl_adt') in (M.queue_adt, M.owning_adt) or not b.get('pub'):
             continue
@@ -339,6 +339,24 @@ def q1_pop_readd(F, R, M, b, roles, byrole):
                 derives_from(pe[3][1], lambda x: x[0] == 'call' and x[1] == peeks[0][1])
             R.check(ok, 'Q2', inst + ':token-slot', where, 'pop_used and re-post use the slot of the peeked token',
                     'popped / re-posted buffers are not the slot selected by the token from peek_used')
+    # the buffer re-posted is the buffer that was popped - the driver-owned slot itself, not a copy of its contents (a copy is a
+    # stack temporary: the device would write the next event into dead memory and the slot would be unshared against it)
+    from .C15 import elem_object
+    S = sg.sym
+    pop_b, add_b = set(), set()
+    for n_ in sg.calls(lambda d: roles.get(d.get('fn')) in ('add', 'pop_used')):
+        ai = 2 if roles[n_.d['fn']] == 'add' else 3
+        els = array_elems(S, S.operand(n_.id, n_.d['args'][ai])) if ai < len(n_.d['args']) else None
+        for e_ in els or []:
+            try:
+                base = elem_object(sg, S, e_)[2]
+            except Exception:
+                continue
+            (add_b if roles[n_.d['fn']] == 'add' else pop_b).add(fmt(base))
+    if pop_b and add_b:
+        R.check(add_b <= pop_b, 'Q2', '%s:repost-same-buffer' % b['id'], where, 'the re-posted buffer is the popped slot itself',
+                'the buffer handed back to the queue (%s) is not the slot that was popped (%s): a copy / another object is posted in its place' % (
+                    sorted(add_b - pop_b)[0][:80] if add_b - pop_b else '', sorted(pop_b)[0][:80]))
     R.count('consume_paths', nc)
 
 
